@@ -335,18 +335,20 @@ Definition scan_number (v : variant) (s : bytes) (start : nat) (c : cursor)
            (k : cursor -> outcome (token * cursor * list diag)) : outcome scanned :=
   let c1 := skip_while is_digit (c_rest c) (c_pos c) in
   match c_rest c1 with
-  | 46%Z :: t =>
-      let c2 := {| c_rest := t; c_pos := S (c_pos c1) |} in
-      if negb (is_digit (head_or_zero t)) then
-        let d := mk_diag EInvalidNumber 0 start (c_pos c2) in
-        let c3 := if v_skip_byte_after_bad_dot v then adv1 c2 else c2 in
-        match k c3 with
-        | Ok (t', c4, ds) => Ok (t_kind t', t_payload t', t_owned t', c4, d :: ds)
-        | LexPanic site p => LexPanic site p
-        | OutOfFuel => OutOfFuel
-        end
-      else scan_number_suffix s start (skip_while is_digit (c_rest c2) (c_pos c2))
-  | _ => scan_number_suffix s start c1
+  | dot :: t =>
+      if (dot =? 46)%Z then
+        let c2 := {| c_rest := t; c_pos := S (c_pos c1) |} in
+        if negb (is_digit (head_or_zero t)) then
+          let d := mk_diag EInvalidNumber 0 start (c_pos c2) in
+          let c3 := if v_skip_byte_after_bad_dot v then adv1 c2 else c2 in
+          match k c3 with
+          | Ok (t', c4, ds) => Ok (t_kind t', t_payload t', t_owned t', c4, d :: ds)
+          | LexPanic site p => LexPanic site p
+          | OutOfFuel => OutOfFuel
+          end
+        else scan_number_suffix s start (skip_while is_digit (c_rest c2) (c_pos c2))
+      else scan_number_suffix s start c1
+  | [] => scan_number_suffix s start c1
   end.
 
 (* ------------------------------------------------------------------ next_token *)
